@@ -175,7 +175,9 @@ pub fn run_worker<E: Engine>(
         }
     };
 
-    // regression cases first (worker 0 only)
+    // regression cases first (worker 0 only); they were found in the quick tier and are
+    // decoded with the quick profile whatever tier is running
+    std::env::set_var("VERIF_CASE_TIER", "quick");
     if worker == 0 {
         for enc in eng.regressions(prop) {
             let case = eng.decode(&enc);
@@ -186,6 +188,7 @@ pub fn run_worker<E: Engine>(
                     "predicate": failed.borrow().clone().unwrap_or_default(),
                     "case": enc,
                     "from": "regression",
+                    "tier": "quick",
                     "violations": o.viols.iter().map(|v| json!({"predicate": v.0, "signature": v.1, "detail": v.2})).collect::<Vec<_>>(),
                     "sample": o.sample,
                 }));
@@ -194,6 +197,7 @@ pub fn run_worker<E: Engine>(
         }
     }
 
+    std::env::set_var("VERIF_CASE_TIER", tier);
     if failure.is_none() && cases > 0 {
         let cfg = Config {
             cases,
@@ -216,6 +220,7 @@ pub fn run_worker<E: Engine>(
                     "predicate": failed.borrow().clone().unwrap_or_default(),
                     "case": eng.encode(&minimal),
                     "from": "generated+shrunk",
+                    "tier": tier,
                     "seed": seed,
                     "worker": worker,
                     "violations": o.viols.iter().map(|v| json!({"predicate": v.0, "signature": v.1, "detail": v.2})).collect::<Vec<_>>(),
@@ -335,6 +340,7 @@ pub fn run_parent<E: Engine>(eng: &E, cfg: ParentCfg) -> i32 {
                         "predicate": "worker_crash",
                         "case": case.trim(),
                         "from": "worker died while running this case",
+                        "tier": cfg.tier,
                         "violations": [{"predicate": "worker_crash", "signature": format!("{}/worker_crash", cfg.prop), "detail": format!("{:?}", st)}],
                     }));
                 }
@@ -509,6 +515,11 @@ pub fn run_replay<E: Engine>(eng: &E, prop: &str, path: &Path) -> i32 {
         return 2;
     };
     let enc = v["case"].as_str().unwrap_or("");
+    std::env::set_var("VERIF_CASE_TIER", v["tier"].as_str().unwrap_or("quick"));
+    if let Some(p) = v["profile"].as_str() {
+        // the case was generated under another generation profile (fuzz tier: "ALL")
+        std::env::set_var("VERIF_CASE_PROFILE", p);
+    }
     let case = eng.decode(enc);
     let o = eng.run(prop, &case);
     println!("{}", serde_json::to_string_pretty(&o.sample).unwrap());
@@ -526,4 +537,9 @@ pub fn run_replay<E: Engine>(eng: &E, prop: &str, path: &Path) -> i32 {
 
 pub fn boxed<S: Strategy + 'static>(s: S) -> BoxedStrategy<S::Value> {
     s.boxed()
+}
+
+/// Tier whose profile the case being run was generated with.
+pub fn case_tier() -> String {
+    std::env::var("VERIF_CASE_TIER").unwrap_or_else(|_| "quick".into())
 }
